@@ -110,6 +110,7 @@ mut('m09_string_len', ['C05'], ME, 'std::mem::size_of::<Self>() + self.capacity(
 mut('m02c_key_precision', ['C02'], KY, 'format!("{:?}", self)', 'format!("{:.1?}", self)', 'floats that differ after the first decimal share a key')
 mut('m02d_async_part_precision', ['C02'], MU, '                __key_parts.push(format!("{:?}", #arg_pats));\n            )*', '                __key_parts.push(format!("{:.3?}", #arg_pats));\n            )*', 'async free fn: float arguments truncated to 3 decimals in the key')
 mut('m05x_fit_sum_counts_entries', ['C05'], G, '                        .map(|e| e.value.estimate_memory())\n                        .sum::<usize>()', '                        .map(|e| crate::MemoryEstimator::estimate_memory(e))\n                        .sum::<usize>()', 'fit test sums whole entries (value + bookkeeping): needless evictions')
+mut('m08x_tlru_weighted_hits_floored', ['C08'], U, 'Some(weight) => frequency * weight,', 'Some(weight) => (frequency * weight).floor(),', 'few hits with weight < 1 score exactly 0, like a never-hit entry')
 mut('m09c_vec_buffer_elem_size', ['C05'], ME, 'let buffer = self.capacity() * size_of::<T>();', 'let buffer = self.capacity() * size_of::<usize>();', 'buffer counted in words, not in elements')
 mut('m09d_option_double_counts_inline', ['C05'], ME, '.map_or(0, |val| val.estimate_memory() - size_of_val(val))', '.map_or(0, |val| val.estimate_memory())', 'payload inline size counted twice')
 mut('m09e_result_err_arm', ['C05'], ME, 'Err(err) => err.estimate_memory() - size_of_val(err),', 'Err(_) => 0,', 'heap owned by the Err payload ignored')
@@ -554,6 +555,8 @@ eqv('e26_option_estimator_match', ME, '''        size_of::<Self>()
                 Some(val) => val.estimate_memory() - size_of_val(val),
                 None => 0,
             }''', 'Option estimator written as a match')
+eqv('e27_tlru_factor_order', U, 'Some(weight) => frequency * weight,', 'Some(weight) => weight * frequency,', 'operands of the weighted hit count swapped')
+eqv('e28_tlru_score_order', U, 'let score = frequency_component * position_weight * age_factor;', 'let score = age_factor * (position_weight * frequency_component);', 'score factors reordered')
 eqv('e20_negated_overflow', G, 'if o.len() > limit {', 'if !(o.len() <= limit) {', 'overflow test written through a negation')
 eqv('e21_negated_async_expiry', A, '                age >= ttl\n', '                !(age < ttl)\n', 'expiry test written through a negation')
 eqv('e22_negated_oversize', G, 'if new_value_size > max_mem {', 'if !(new_value_size <= max_mem) {', 'oversize test written through a negation')
